@@ -97,7 +97,7 @@ def run(chk):
                 "distinct non-trivial = distinct accepted inputs with >= 3 tokens, or containing a multi-line token")
     chk.assumptions = ["C-locale <cctype> classes (the binary never calls setlocale)"]
     import translate_tables
-    chk.prove(generated=[translate_tables.keywords])
+    chk.prove(generated=[translate_tables.keywords, translate_tables.operators])
     rng = chk.rng
     inputs = []
     for fn, o in __import__("framework").load_corpus("C15"):
